@@ -197,7 +197,7 @@ def ref_declared(cl, chunked):
     return pint(digs)
 
 
-def body_input_stream(I, X, cl_kind="text"):
+def body_input_stream(I, X, cl_kind="text", via="function"):
     """get_input_stream / get_content_length decision table with symbolic CONTENT_LENGTH text
     and symbolic max_content_length"""
     import io
@@ -219,11 +219,26 @@ def body_input_stream(I, X, cl_kind="text"):
         environ["HTTP_TRANSFER_ENCODING"] = "chunked"
     has_max = X.flag("has_max")
     mx = X.int("max", 0, 1200) if has_max else None
-    safe = X.flag("safe_fallback")
-    try:
-        s = I.call(get_input_stream, (environ,), {"safe_fallback": safe, "max_content_length": mx})
-    except RequestEntityTooLarge:
-        s = None
+    if via == "request":
+        # the same table through Request.stream with Request.max_content_length (safe fallback on)
+        from werkzeug.wrappers import Request
+
+        class Req(Request):
+            max_content_length = mx
+
+        environ.update({"REQUEST_METHOD": "POST", "wsgi.url_scheme": "http", "SERVER_NAME": "s", "SERVER_PORT": "80", "PATH_INFO": "/", "QUERY_STRING": ""})
+        safe = True
+        req = I.call(Req, (environ,))
+        try:
+            s = I.getattr(req, "stream")
+        except RequestEntityTooLarge:
+            s = None
+    else:
+        safe = X.flag("safe_fallback")
+        try:
+            s = I.call(get_input_stream, (environ,), {"safe_fallback": safe, "max_content_length": mx})
+        except RequestEntityTooLarge:
+            s = None
     if s is None:
         kind = "413"
     elif s is raw:
@@ -379,4 +394,6 @@ def obligations(tier, seed):
     for k in ("text", "absent"):
         out.append({"name": f"input_stream[{k}]", "body": "body_input_stream", "params": {"cl_kind": k},
                     "opts": {"budget_s": 900, "ctx": {"max_cp": 0x7FF}}, "witness": k == "text"})
+        out.append({"name": f"input_stream[{k},via=Request.stream]", "body": "body_input_stream", "params": {"cl_kind": k, "via": "request"},
+                    "opts": {"budget_s": 900, "ctx": {"max_cp": 0x7FF}, "stubs_from": "harness.c07"}})
     return out + extra
